@@ -59,7 +59,7 @@ CLAIMED = {
     ),
     "C13": dict(
         text="Bounded, per-key rules of one compaction only: the statements of Compactor::compact() that choose the surviving update of a key and that drop expired tombstones (text-extracted, S8) are run on 2 LWW updates of one key with symbolic stamps (equal times from two replicas included), bytes, tombstone flags and any tombstone cutoff: when no tombstone is dropped, recovery after the compaction returns the same value, liveness and stamp as before; when one is dropped, no older value of the compacted segments becomes visible. Not claimed: an older value OUTSIDE the compaction (unselected segment, checkpoint) resurfacing after a tombstone is dropped (harnesses ran out of memory; by reading this is a defect, DESIGN.md 9.2 F11b), hash values, segment selection, manifest updates, interleaving with flushes, the object-store steps.",
-        note=TRUST + "2-slot container model (harness names *_c2). Natively the real compact() runs between two real recover() runs on an in-memory object store.",
+        note=TRUST + "1-slot container model in the quick tier (harness names *_c1), 2-slot model in the thorough tier (*_c2). Natively the real compact() runs between two real recover() runs on an in-memory object store.",
     ),
     "C15": dict(
         text="Bounded: both RESP decoders on templates whose size-determining fields are concrete (type byte, length text from a boundary menu "
